@@ -11,5 +11,5 @@ echo "CONFIRM tests with change: $tests"
 (cd "$wt" && timeout 900 bash "$sub/demo.sh" "$CARGO_TARGET_DIR/debug/circomspect" >/dev/null 2>&1); with=$?
 git checkout -q -- . && cargo build --offline -q -p circomspect 2>/dev/null
 (cd "$wt" && timeout 900 bash "$sub/demo.sh" "$CARGO_TARGET_DIR/debug/circomspect" >/dev/null 2>&1); without=$?
-git checkout -q -- . ; git clean -fdq -e out -e out2 -e out3 -e out4 -e out5 -e target >/dev/null 2>&1
+git checkout -q -- . ; git clean -fdq -e "out*" -e target >/dev/null 2>&1
 echo "CONFIRM demo exit with change: $with, without: $without"
